@@ -1,5 +1,6 @@
-(* C05 driver: runs the extracted model of multiway_merge_base (reference tournament for the loser trees)
-   on every case of the case file; one output line per case, same format as harness/C05/mwm_harness.cpp.
+(* C05 driver: runs the extracted model of multiway_merge_base on every case of the case file, once with C09's
+   loser-tree model (copy classes for element types I/T, pointer classes for B) - this is the line printed - and once
+   with the reference tournament (flag REF-DIFFERS when the two disagree on what the property fixes); one output line per case, same format as harness/C05/mwm_harness.cpp.
    case:  <etype I|T|B> <stable 0|1> <sentinels 0|1> <alg 0..3> <len> <k> <seq_0> ... <seq_k-1> [<sentinel_0> ... <sentinel_k-1>]
           seq_i = "_" (empty) or comma separated keys. *)
 open C05_model
@@ -32,7 +33,9 @@ let () =
          let (seqtoks, rest) = take k rest in
          let seqs = List.mapi parse_seq seqtoks in
          let sents = if sent then List.mapi (fun i s -> (int_of_string s, i, -1)) (fst (take k rest)) else [] in
-         (match ref_mwm ltb stable sent (alg_of (int_of_string alg)) seqs sents (nat_of_int len) with
+         let a = alg_of (int_of_string alg) and n = nat_of_int len in
+         let reference = ref_mwm ltb stable sent a seqs sents n in
+         (match c9_obs ltb (0, -7, -7) (etype = "B") stable sent a seqs sents n with
           | None -> print_endline "MODEL-ERROR"
           | Some ((out, ret), cur) ->
             let b = Buffer.create 256 in
@@ -45,6 +48,12 @@ let () =
               let (spec, _) = msteps ltb (nat_of_int len) seqs in
               if spec <> out then Buffer.add_string b " MODEL-DIFFERS-FROM-SPEC"
             end;
+            (match reference with
+             | None -> Buffer.add_string b " MODEL-REF-ERROR"
+             | Some ((rout, rret), rcur) ->
+               let keys l = List.map (fun (k, _, _) -> k) l in
+               if (stable && (rout <> out || rcur <> cur)) || keys rout <> keys out || rret <> ret
+               then Buffer.add_string b " MODEL-REF-DIFFERS");
             print_endline (Buffer.contents b))
        | [] -> ()
        | _ -> print_endline "?"
